@@ -14,6 +14,7 @@ EXPLANATION = ("Static structural clauses of C12 decided from MIR/HIR facts of t
                "control-dependent on the uuid equality. The byte-level claim (file otherwise bit-identical) is not decided."
                " (R6) the readers a container hands out for its packs are cut with in_memory = false (set_location relies on their global offset)."
                ' Added later: (R7) the reader accepts the lengths the writer accepts; (R8) the padded location is written in straight-line code, one run of size - len zeros; (R9) pack_location is assigned only by PackInfo, the creators and set_location; (R10) a pack of the file at hand is found by uuid whatever its location says (= C10-R1). (R11) PackInfo::serialize writes each field of the struct from that field.')
+EXPLANATION += ' Batch 11: (R7) the padding skipped after the parsed location is sized with its length in bytes (str::len), never a character count.'
 ASSUMPTIONS = ["seek/write semantics of std::fs::File", "rustc MIR construction and trait resolution (nightly in the image)",
                "reference table /verif/format/reference_v0_2.json for the v0.2 constants"]
 
@@ -283,6 +284,16 @@ def r7_reader_accepts_what_the_writer_accepts(cx):
         for a in path:
             if a[0] == "pstr_padded" and isinstance(a[1], int):
                 maxlen = a[1]
+    # what follows the location in its slot is skipped: slot size minus the *byte* length of the string just parsed (the
+    # writer pads with `size - string.len()` bytes, R8) -- a count of characters is smaller for any non-ASCII location
+    sk = [(i, t) for i, t in b.calls(r"Parser>::skip$|::skip$") if not b.is_cleanup(i) and len(t["args"]) >= 2]
+    for i, t in sk:
+        o = b.origins(t["args"][1])
+        oc = [callee_str(b.term(x[1])) for x in o if x[0] == "call"]
+        chars = [c for c in oc if re.search(r"str::chars$|Chars|char_indices|Iterator>::count$|graphemes|::width", c)]
+        bytelen = [c for c in oc if re.search(r"str::len$|impl str>::len$|String::len$|\]>::len$|Vec::<u8>::len$|SmallVec.*::len$|as_bytes$", c)]
+        cx.ob("R7", "R7/PackInfo.parse/padding-sized-by-byte-length", bool(bytelen) and not chars, f,
+              "the padding skipped after the location is sized with its length in bytes (byte-length calls: %s; character counts: %s)" % (sorted(set(bytelen)) or "none", sorted(set(chars)) or "none"), ln=t.get("ln"))
     if maxlen is None or not lens:
         raise AnchorLost("PackInfo: padded location field / len() of the parsed location not found")
     explicit = b.err_return_blocks()
